@@ -37,6 +37,12 @@ where
             let src = self.inner.fill_buf().await?;
 
             if src.is_empty() {
+                // `Take` ends early without an error when the underlying stream does: a header
+                // text shorter than `l_text` is a truncated file, not a shorter header.
+                if self.inner.get_ref().limit() > 0 {
+                    return Err(io::Error::from(io::ErrorKind::UnexpectedEof));
+                }
+
                 return Ok(n);
             }
 
